@@ -20,7 +20,7 @@ import numpy as np
 from symx import core
 from symx.graph import Runner, grid, layer_keys_ok, run_blocks
 from symx.oracle import AND, EQ, IMPLIES, NOT, OR, cumsum0
-from symx.sarr import BoundsLog, SArr, assemble, leaf, same_array
+from symx.sarr import prefix_lemmas, BoundsLog, SArr, assemble, leaf, same_array
 from symx.world import SHIM_LIST, SymNp
 
 from .common import Cfg, collect_graph, lower_tree, world
@@ -49,7 +49,7 @@ VIX = "dask_array.slicing._vindex"
 ARG = "dask_array.creation._arange"
 DB = "dask.blockwise"
 MT = "dask_array._materialize"
-MODS = [MT, "dask_array.core._blockwise_funcs", "dask_array.core._conversion", EX, BW, CU, RC, FA, IOB, SB, SU, "dask_array.slicing", CO, NC, TR, XP, SQ, BT, CC, SK, RD, RCM, SHF, VIX, ARG, DB]
+MODS = [MT, "dask_array.core._blockwise_funcs", "dask_array.core._conversion", EX, BW, CU, RC, FA, IOB, SB, SU, "dask_array.slicing", CO, NC, TR, XP, SQ, BT, CC, SK, RD, RCM, SHF, VIX, ARG, "dask_array._overlap", "dask_array._map_blocks", "dask_array._chunk", "dask.layers", "dask_array.reductions._sliding_window", DB]
 STUBS = SHIM_LIST + [
     "expression classes -> symx.nodes (real methods on cloned code; constructors/tokenize bypassed, structural names); the "
     "Array collection class -> subclass with cloned methods",
@@ -294,6 +294,35 @@ def p_arange(w, E, step, blocks):
     return Prog(node, ref, {})
 
 
+def p_sliding_sum(w, E, p, axis, keepdims=False):
+    """sliding_window_view(x, W, axis).sum(-1) through the public functions; W in 2..3 (the rewrite reads int(W))"""
+    import z3
+    from symx.core import _z
+
+    W_ = int(E.int("window", 2, 3))  # forks: the rewrite reads int(W) and the kernel sums a window-long axis
+    n = p.node.shape[axis]
+    E.assume(n >= W_)
+    coll = w.fn(NC, "new_collection")(p.node)
+    view = w.fn("dask_array._overlap", "sliding_window_view")(coll, W_, axis=axis)
+    out = w.fn(RCM, "sum")(view, axis=-1, keepdims=keepdims, dtype="f8")
+    X = p.ref
+    shape = list(X.shape)
+    shape[axis] = shape[axis] - W_ + 1
+
+    def at(idx):
+        tot = 0
+        for k in range(W_):
+            pos = list(idx[:X.ndim])
+            pos[axis] = pos[axis] + k
+            tot = tot + X._at(tuple(pos))
+        return tot
+
+    ref = SArr(tuple(shape) + ((1,) if keepdims else ()), at)
+    # the banded kernels scan (prefix functions of the source); tie them to the source at the compared position
+    ref.lemmas = lambda idx: prefix_lemmas(X, axis, idx, W_)
+    return Prog(out.expr, ref, p.dsk)
+
+
 def p_take(w, E, p, axis, index):
     """x[..., [i, j, ...], ...] through Array.__getitem__ (normalize_index -> slice_wrap_lists -> take -> Shuffle);
     the index values are concrete, the axis is long enough to hold them"""
@@ -393,6 +422,7 @@ def programs(tier):
     reg("stack([x2,y2],1)[:,a:b]", lambda w, E: p_slice(w, _stack_aligned(w, E, 1), raw_index(E, ((0, 0, None), F))), 5)
     reg("concatenate([x2,y2],0)[a:b:-1]", lambda w, E: p_slice(w, p_concat(w, [source(w, E, "x", (2,)), source(w, E, "y", (2,))], 0), raw_index(E, ((1, 1, -1),))), 6)
     reg("x2x2.T+y1x1(rechunk inserted by lowering over a transpose)", lambda w, E: _add_T_coarse(w, E), 4)
+    reg("sliding_window_view(x3,W,0).sum(-1)", lambda w, E: p_sliding_sum(w, E, source(w, E, "x", (3,)), 0), 12)
     # nested-op fusion
     reg("transpose(transpose(x2x1x2,(1,2,0)),(0,2,1))", lambda w, E: p_transpose(w, p_transpose(w, source(w, E, "x", (2, 1, 2)), (1, 2, 0)), (0, 2, 1)), 3)
     reg("transpose(transpose(x2x2,(1,0)),(1,0))", lambda w, E: p_transpose(w, p_transpose(w, source(w, E, "x", (2, 2)), (1, 0)), (1, 0)), 2)
